@@ -12,7 +12,7 @@
    The string-level half - dotted rendering turns the component prefix order
    into "equal or starts with name + '.'" - is C14_render_prefix. *)
 From Coq Require Import List Bool NArith.
-From PTA Require Import Sx Names Graph Search Rule SpecRule Builder Layer Label NamesProofs SearchProofs RuleProofs RenameProofs LabelProofs LabelRenameProofs.
+From PTA Require Import Sx Names Graph Search Rule SpecRule Builder Layer Diagram Label NamesProofs SearchProofs RuleProofs RenameProofs LabelProofs LabelRenameProofs.
 Import ListNotations.
 
 Theorem C14_rule_rename_invariant :
@@ -37,6 +37,19 @@ Theorem C14_layer_rename_invariant :
   = rn_loutcome A B f (layer_assert_applies ea rm1 g a c).
 Proof. exact layer_rename. Qed.
 Print Assumptions C14_layer_rename_invariant.
+
+(* diagram rules (both modes, with or without a base module): verdict and report invariant as well *)
+Theorem C14_diagram_rename_invariant :
+  forall (A B : Type) (f : A -> B) (ea : A -> A -> bool) (eb : B -> B -> bool),
+  (forall x y, reflect (x = y) (ea x y)) -> (forall x y, reflect (x = y) (eb x y)) ->
+  (forall x y, f x = f y -> x = y) ->
+  forall (rm1 : N -> list A -> bool) (rm2 : N -> list B -> bool),
+  (forall p n, rm2 p (rn_name A B f n) = rm1 p n) ->
+  forall g only base d,
+  diagram_apply eb rm2 (rn_graph A B f g) only (option_map (rn_name A B f) base) (rn_pdeps A B f d)
+  = rn_outcome A B f (diagram_apply ea rm1 g only base d).
+Proof. exact diagram_rename. Qed.
+Print Assumptions C14_diagram_rename_invariant.
 
 (* the string half: on dotted names, "m is k or extends k by whole components" is exactly
    "m = k or m starts with k + '.'" - which is what every name test in the code must use *)
